@@ -9,7 +9,7 @@
     operators associative and commutative).  So a value that differs from the model's differs
     from the sequential specification. *)
 From OrxPar Require Import Base Settings SettingsP Spec Pipeline PipelineP Machine MachineP Termination
-  MachineIter MachineIterP Kernels KernelsP Own Program Master MasterIter Exec.
+  MachineIter MachineIterP TerminationIter Kernels KernelsP Own Program Master MasterIter Exec.
 Set Implicit Arguments.
 
 Definition req (a b : result) : Prop :=
@@ -325,4 +325,69 @@ Proof.
     { unfold s, mrun, mrunp. rewrite Hlen. reflexivity. }
     rewrite Es. apply exec_value_indexed; auto.
     rewrite <- Es. apply all_doneb_spec. exact Hdone.
+Qed.
+
+(** the same for a by-value iterator source (no eager site, micro-schedule) *)
+Lemma icomplete_is_irun len known ordered stop panics r rounds : forall s,
+  exists extra, icomplete len known ordered stop panics r rounds s
+                = irun len known ordered stop panics (m_dospawn r) (m_nextc r) s extra.
+Proof.
+  induction rounds as [|n IH]; intros s; cbn [icomplete]; [exists []; reflexivity|].
+  destruct (iall_doneb s); [exists []; reflexivity|].
+  destruct (IH (irun len known ordered stop panics (m_dospawn r) (m_nextc r) s (seq 0 (S (length (iws s)))))) as [e He].
+  exists (seq 0 (S (length (iws s))) ++ e). rewrite He. unfold MachineIter.irun. rewrite fold_left_app. reflexivity.
+Qed.
+
+Lemma irun_app len known ordered stop panics ds nc s a b :
+  irun len known ordered stop panics ds nc (irun len known ordered stop panics ds nc s a) b
+  = irun len known ordered stop panics ds nc s (a ++ b).
+Proof. unfold MachineIter.irun. rewrite fold_left_app. reflexivity. Qed.
+
+Theorem exec_value_iter_case (c : case) :
+  c_panic c = None -> c_pre c = 0 -> c_macro c = false -> c_iter c = true ->
+  ps_runs (c_st c) = 0 ->
+  (forall task len r, runner_new (ps_params (c_st c)) task len (c_avail c) = Some r -> runner_wf r) ->
+  (kind_of (c_p c) = KMap -> forall x, length (yields (trace (c_p c) x)) = 1) ->
+  (forall f, red_family (c_term c) = Some f ->
+     (forall a b c0, f (f a b) c0 = f a (f b c0)) /\ (forall a b, f a b = f b a)) ->
+  o_sequential (exec c) = false -> o_complete (exec c) = true -> o_result (exec c) <> RPanic ->
+  req (o_result (exec c)) (c_seqval c).
+Proof.
+  intros Hpanic Hpre Hmacro Hiter Hruns Hwf Hone Hop.
+  unfold exec, exec0, c_seqval, c_p, c_st in *.
+  rewrite Hpanic, Hpre, Hmacro, Hiter in *. cbn [hits andb skipn] in *.
+  set (st0 := build (c_input c) (to_ops 0 (c_ops c))) in *.
+  set (st := match c_term c with
+             | TForEach => apply_stage st0 (SMap (length (c_ops c)) (fun x => x))
+             | _ => st0
+             end) in *.
+  set (p := term_par (ps_par st) (c_term c) (length (c_ops c))) in *.
+  rewrite Hruns in *. cbn [Nat.eqb Nat.ltb Nat.leb orb] in *.
+  destruct (is_sequential (ps_params st) || empty_collect (kind_of (ps_par st)) (c_term c)) eqn:Eseq.
+  - destruct (finish_seq (c_term c) (flat_map (trace p) (ps_src st)) (ps_src st) p). cbn. discriminate.
+  - set (il := if c_known c || false || ordered_of (c_term c) && false
+               then Some (N.of_nat (length (ps_src st))) else None) in *.
+    destruct (runner_new (ps_params st) (kernel_task (kind_of (ps_par st)) (c_term c)) il (c_avail c)) as [r|] eqn:Er;
+      [|cbn; intros _ _ H; congruence].
+    pose proof (Hwf _ _ _ Er) as Hr. pose proof (runner_new_len _ _ _ _ Er) as Hlen.
+    destruct (icomplete_is_irun (length (ps_src st)) (match il with Some _ => true | None => false end)
+                (ordered_of (c_term c))
+                (if is_find (c_term c) then stop_of p (ps_src st) else fun _ => false)
+                (fun _ : nat => false) r (c_fuel c)
+                (irun (length (ps_src st)) (match il with Some _ => true | None => false end)
+                      (ordered_of (c_term c))
+                      (if is_find (c_term c) then stop_of p (ps_src st) else fun _ => false)
+                      (fun _ : nat => false) (m_dospawn r) (m_nextc r) (iinit (m_c0 r)) (c_sched c))) as [extra He].
+    cbn [fst snd o_result o_sequential o_complete] in *.
+    rewrite He, irun_app.
+    set (s := irun _ _ _ _ _ _ _ _ (c_sched c ++ extra)).
+    intros _ Hdone Hres.
+    destruct (iany_dead s); [rewrite Hdone in Hres; cbn in Hres; congruence|].
+    rewrite Hdone. cbn [andb negb]. rewrite shift_res_0.
+    replace (Nat.min 0 (length (c_input c))) with 0%nat by reflexivity.
+    assert (Es : s = imrun r (length (ps_src st)) (ordered_of (c_term c))
+                           (if is_find (c_term c) then stop_of p (ps_src st) else @nostop) (c_sched c ++ extra)).
+    { unfold s, imrun, imrunp. rewrite Hlen. reflexivity. }
+    rewrite Es. apply exec_value_iter; auto.
+    rewrite <- Es. apply iall_doneb_spec. exact Hdone.
 Qed.
